@@ -15,6 +15,12 @@ Theorem C03_regression_F03a :
 Proof. exact regression_F03a. Qed.
 Print Assumptions C03_regression_F03a.
 
+(* F03c (fixed): List["M"] inside M is a supported list-of-dataclass type for the converter. *)
+Theorem C03_regression_F03c : forall c,
+  resolve (PArr (PSelf c)) = TList (TData c) /\ ty_ok (resolve (PArr (PSelf c))) = true.
+Proof. exact regression_F03c. Qed.
+Print Assumptions C03_regression_F03c.
+
 (* FULL.  Keys on the wire are the spec's property names whatever field names were derived: for ANY
    name sanitizer and ANY list of distinct property names (any required flags, any order), the
    attribute names chosen by the generator (sanitised name, `_2, _3, ...` probing on collision — the
